@@ -3,6 +3,8 @@
   Property theorems only.
 -/
 import SifVerif.Proofs.CreateWF
+import SifVerif.Proofs.Placed
+import SifVerif.Proofs.Refine
 namespace Sif.C02
 
 variable (sha : Bytes → Bytes) (ph : Bytes → Option Bytes)
@@ -126,5 +128,94 @@ theorem C02_mtime (s : Img) (op : Op) (now : Int) (hok : (plan sha ph s op now).
           simp only [h2, Bool.false_eq_true, ↓reduceIte]
           rw [h]
   | _ => trivial
+
+/-! ### refinement of the abstract reference model (Model/Spec.lean) -/
+
+/-- **Every operation is the reference model's operation.**  From any well-formed, correctly
+    placed handle — created by the library or loaded from someone else's file — a concrete step
+    (on header, descriptor table, minimum-ID cache and the bytes of the store) answers what the
+    abstract step answers on the abstract view (header attributes + slots of objects with their
+    attributes and content), and leads to the abstract view the abstract step leads to.  Outside
+    the reference model: store failures and the two integer-overflow refusals. -/
+theorem C02_refine (s : Img) (W : WF s) (P : Placed s) (R : Ranges s) (op : Op) (now : Int)
+    (hout : (step sha ph s op now).2.outsideSpec = false) :
+    (step sha ph s op now).2 = ((abs s).step sha ph op now).2 ∧
+    abs (step sha ph s op now).1 = ((abs s).step sha ph op now).1 := by
+  have hio : (step sha ph s op now).2 ≠ .err .io := by
+    intro h; rw [h] at hout; simp [Res.outsideSpec] at hout
+  cases op with
+  | add di t => exact refine_add sha ph s W P R di t now hout
+  | del sel z c t => exact refine_del sha ph s W P R sel z c t now hio
+  | setPrim id t => exact refine_setPrim sha ph s W P R id t now hio
+  | setMeta id md t => exact refine_setMeta sha ph s W P R id md t now hio
+  | setOCI id text t => exact refine_setOCI sha ph s W P R id text t now hio
+  | reload =>
+    simp only [step, WF.load s W R, AImg.step]
+    exact ⟨trivial, rfl⟩
+
+/-- … hence **whole histories** (including reloads) present exactly the objects the reference
+    model predicts, at every length -/
+theorem C02_refine_history (s : Img) (ops : List (Op × Int)) (W : WF s) (P : Placed s)
+    (hR : ∀ k, Ranges (runOps sha ph s (ops.take k)))
+    (hout : ∀ k op now, ops[k]? = some (op, now) →
+      (step sha ph (runOps sha ph s (ops.take k)) op now).2.outsideSpec = false) :
+    abs (runOps sha ph s ops) = (abs s).runOps sha ph ops ∧
+    ∀ k op now, ops[k]? = some (op, now) →
+      (step sha ph (runOps sha ph s (ops.take k)) op now).2 =
+        (((abs s).runOps sha ph (ops.take k)).step sha ph op now).2 := by
+  induction ops generalizing s with
+  | nil => exact ⟨rfl, fun k op now h => by simp at h⟩
+  | cons x rest ih =>
+    obtain ⟨op, now⟩ := x
+    have R0 : Ranges s := by simpa [runOps] using hR 0
+    have hout0 := hout 0 op now (by simp)
+    simp only [List.take_zero, runOps] at hout0
+    have hio0 : (step sha ph s op now).2 ≠ .err .io := by
+      intro h; rw [h] at hout0; simp [Res.outsideSpec] at hout0
+    obtain ⟨r0, a0⟩ := C02_refine sha ph s W P R0 op now hout0
+    have W' := WF_step sha ph s W R0 op now hio0
+    have P' := Placed_step sha ph s W P R0 op now hio0
+    obtain ⟨ih1, ih2⟩ := ih (step sha ph s op now).1 W' P'
+      (fun k => by simpa [runOps] using hR (k + 1))
+      (fun k op' now' hk => by simpa [runOps] using hout (k + 1) op' now' (by simpa using hk))
+    refine ⟨?_, ?_⟩
+    · simp only [runOps, AImg.runOps]
+      rw [ih1, a0]
+    · intro k op' now' hk
+      cases k with
+      | zero =>
+        simp only [List.getElem?_cons_zero, Option.some.injEq, Prod.mk.injEq] at hk
+        obtain ⟨rfl, rfl⟩ := hk
+        simpa [runOps, AImg.runOps] using r0
+      | succ k =>
+        have := ih2 k op' now' (by simpa using hk)
+        simpa [runOps, AImg.runOps, a0] using this
+
+/-- in the reference model a rejected operation returns the image unchanged (by definition of each
+    operation), so with `C02_refine` the abstract view of a handle survives every rejected call -/
+theorem C02_spec_rejected (a : AImg) (op : Op) (now : Int) (h : (a.step sha ph op now).2 ≠ .ok) :
+    (a.step sha ph op now).1 = a := by
+  cases op with
+  | add di t =>
+    simp only [AImg.step, AImg.add] at h ⊢
+    repeat' split
+    all_goals first | rfl | (exfalso; simp_all)
+  | del sel z c t =>
+    simp only [AImg.step, AImg.del] at h ⊢
+    repeat' split
+    all_goals first | rfl | (exfalso; simp_all)
+  | setPrim id t =>
+    simp only [AImg.step, AImg.setPrim] at h ⊢
+    repeat' split
+    all_goals first | rfl | (exfalso; simp_all)
+  | setMeta id md t =>
+    simp only [AImg.step, AImg.setMeta, AImg.setExtraAt] at h ⊢
+    repeat' split
+    all_goals first | rfl | (exfalso; simp_all)
+  | setOCI id text t =>
+    simp only [AImg.step, AImg.setOCI, AImg.setExtraAt] at h ⊢
+    repeat' split
+    all_goals first | rfl | (exfalso; simp_all)
+  | reload => rfl
 
 end Sif.C02
